@@ -278,3 +278,40 @@ func callVolume(r *vf.Run, check func(m *mapper, a uint32)) {
 	r.Eval(total)
 	r.SetExtra("call_volume", total)
 }
+
+// runsThenJumps: access patterns instead of single calls - a run of consecutive addresses inside one
+// 8 KiB page (what a bulk transfer does), directly followed by calls for the same offset in banks that
+// differ in one or two bank bits (mirrors, and the same low bits in another memory class). check judges
+// the calls after the jump.
+func runsThenJumps(r *vf.Run, check func(m *mapper, a uint32)) {
+	if !r.Phase("runs-then-jumps") {
+		return
+	}
+	flips := []uint32{0x20, 0x40, 0x80, 0xC0, 0xE0, 0x10, 0x60, 0xA0, 0xD5, 0x30, 0x35}
+	r.Parallel(runtime.NumCPU(), len(mappers)*16, func(w, idx int) {
+		m := &mappers[idx/16]
+		g := r.Rand("runs").Fork(uint64(idx))
+		var n int64
+		for page := uint32(idx % 16); page < 2048; page += 16 {
+			for _, dir := range []int{0, 1} {
+				for _, runLen := range []int{1, 3, 4, 5, 8, 17} {
+					base := page<<13 | uint32(g.Intn(0x1000))
+					for k := 0; k < runLen; k++ {
+						if dir == 0 {
+							_, _ = m.p2b(base + uint32(k))
+						} else {
+							_, _ = m.b2p(base + uint32(k))
+						}
+					}
+					f := flips[g.Intn(len(flips))]
+					a := (base + uint32(runLen)) ^ f<<16
+					// the oracle itself makes calls in both directions; the first one is the jump
+					check(m, a)
+					n++
+				}
+			}
+		}
+		r.Eval(n)
+	})
+	r.Cell("runs-then-jumps")
+}
